@@ -186,6 +186,12 @@ def useService (sps : PoolSpec) (instances : List Instance) : List Server :=
     if qualifies sps.serverTags i then some (⟨i.url, i.weight, i.tags⟩ : Server) else none)
   if servers.length = 0 then sps.servers else servers
 
+/-- the list the pool's balancer holds after a history of discovery reports (oldest first): every report
+replaces it (`useService` ends in one unconditional `createLoadBalancer`); before the first one it is
+the static list -/
+def afterReports (sps : PoolSpec) (reports : List (List Instance)) : List Server :=
+  reports.foldl (fun _ r => useService sps r) sps.servers
+
 /-! ### The pool as a shared object: atomic store of a fresh immutable balancer, atomic load,
 atomic fetch-add on the loaded balancer's counter -/
 
